@@ -29,6 +29,11 @@ impl ReplicationTimer {
         self.replication_deadline
     }
 
+    #[cfg(feature = "verif-hooks")]
+    pub fn verif_expire(&mut self) {
+        self.replication_deadline = Instant::now();
+    }
+
     pub(crate) fn is_expired(&self) -> bool {
         self.next_deadline() <= Instant::now()
     }
